@@ -158,6 +158,8 @@ def run(ck):
     ck.prove("BoaVerif.C17.Theorems", driver="drv-c17")
     # dependency order for the whole walk (invariant through `visit`, fuel measure): every theorem of the file is an obligation
     ck.prove("BoaVerif.C17.OrderTheorems")
+    # host-facing contract of the async model (re-evaluation, job accounting, splitting the job loop)
+    ck.prove("BoaVerif.C17.AsyncTheorems")
     bins = ck.build_harness(["c17"])
     r = lib.rng(ck.seed)
     quick = ck.tier == "quick"
